@@ -358,7 +358,7 @@ _EXTRA10 = {
  "C12": " Tenth round: (R-CPL-1); R-SRT-12 registered.",
  "C13": " Tenth round: (R-CPL-1) a value that holds a sync / atomic type by value is never copied (value receivers, by-value parameters, whole-value loads of shared storage).",
  "C14": " Tenth round: R-SCP-2 registered (a scope is released once: a node scope pooled twice is handed to two nested queries).",
- "C15": " Tenth round: (R-SCP-13) every invocation binds every declared name of the function in its own block.",
+ "C15": " Tenth round: (R-SCP-13) every invocation binds every declared name of the function in its own block. After it: (R-SCP-14) a scope that opens a new block (function invocation, IF / WHILE block) carries nothing of the calling query — nodes, Records and the recursive table of a running WITH RECURSIVE stay behind; genuine defect repaired (a function called from a recursive CTE could not see a view it declares under the CTE's name).",
  "C16": " Tenth round: (R-CUR-13) OPEN evaluates the cursor's query in the scope of the OPEN statement; (R-SCP-13); (R-CPL-1); R-SCP-1 registered.",
  "C17": " Tenth round: (R-ROW-1) a per-row evaluation stands on the row that receives its result (position, evaluate, store for the same record).",
  "C19": " Tenth round: (R-IDX-1) an index advanced inside a scanning loop is proven < len before it is used; (R-RECT-1) rows built before the header is final are padded unconditionally: every loaded JSON table is rectangular.",
